@@ -84,6 +84,8 @@ StepBad ==
          [] E.ev = "quiet" /\ Distinct /\ NoLiveExt /\ ActiveOps # Tops -> "the_top_operator_is_not_the_active_one"
          [] E.ev = "quiet" /\ ~NoDeadLeft -> "dead_record_not_cleaned"
          [] E.ev = "quiet" /\ \E o \in Ops : st[o] = "up" /\ (E.watching[o] <=> paused[o]) -> "streams_do_not_follow_the_pause"
+         \* being the active one means doing the work: after the resume and its fresh listing every object has its daemon again
+         [] E.ev = "quiet" /\ E.objs >= 0 /\ \E o \in Ops : st[o] = "up" /\ ~paused[o] /\ lsr[o] /\ dcount[o] # E.objs -> "the_active_operator_does_not_run_its_daemons"
          [] OTHER -> "none"
 StateBad ==
   IF ~RenewsInTime' THEN "record_expired_while_running"
